@@ -1,5 +1,8 @@
 import Sqljson.Audit
 import Sqljson.Props.C08
+import Sqljson.Props.C08b
 import Sqljson.Props.GenFacts
 #audit_ns C08 Sqljson.C08
+#audit_ns C08 Sqljson.C08b
+#audit C08 [Sqljson.Exec.sim_all, Sqljson.Exec.xItem_sim, Sqljson.Exec.xBool_sim, Sqljson.Exec.xAny_sim]
 #audit C08 [Sqljson.GenFacts.raise_unchanged]
